@@ -5,7 +5,7 @@ VIEW View
 CONSTANTS
   MaxLen = 3
   FullLen = 2
-  Core = {1, 3, 4, 5, 6, 7, 8, 9, 10, 11, 12, 13, 14, 21, 25, 26, 27, 30}
+  Core = {1, 3, 4, 5, 6, 7, 8, 9, 10, 11, 12, 13, 14, 21, 26, 27, 30, 33, 34}
   Families = {"rich", "rand"}
   NRand = 12
   RandSize = 9
